@@ -22,8 +22,8 @@ from ref.http_response_check import NOBODY, CL, CHUNKED, EOF, decode_content
 
 ID = "C02"
 LEVEL = "exploration"
-QUICK_N = 16000
-THOROUGH_N = 700000
+QUICK_N = 10000
+THOROUGH_N = 1000000
 CHUNK = 500
 RULE = ("gen(seed): program of <=10 output ops (set_status/set_header/add_header/clear_header/"
         "write bytes|str|dict/flush awaited or not/finish[chunk]/raise HTTPError|Exception/sleep), "
@@ -103,9 +103,14 @@ def chunk_bytes(v):
 # ----------------------------------------------------------------------------
 # generator
 
-def _gen_write(rng, small):
+BIG_SIZES = [5000, 20000, 65535, 65536, 65537, 70000]
+
+
+def _gen_write(rng, small, big=False):
     sizes = [0, 1, 2, 10, 40] if small else SIZES
     n = rng.choice(sizes)
+    if big and rng.random() < 0.4:
+        n = rng.choice(BIG_SIZES)
     if n > 3 and rng.random() < 0.5:
         n = max(0, n + rng.randint(-2, 2))
     k = rng.random()
@@ -117,6 +122,7 @@ def gen(rng, tier, index):
     thorough = tier == "thorough"
     window = rng.choice(WINDOW_PICK)
     small = window is not None and window <= 7
+    big = thorough and not small and rng.random() < 0.08
     ops = []
     # --- status / headers
     if rng.random() < 0.35:
@@ -136,7 +142,7 @@ def gen(rng, tier, index):
     for _ in range(nbody):
         k = rng.random()
         if k < 0.5:
-            ops.append(dict(op="write", **_gen_write(rng, small)))
+            ops.append(dict(op="write", **_gen_write(rng, small, big)))
         elif k < 0.8:
             ops.append({"op": "flush", "wait": rng.random() < 0.5})
         elif k < 0.93:
@@ -334,6 +340,39 @@ def validate(scn):
         return True
     except Exception:
         return False
+
+
+def simplify(scn):
+    """Extra shrink candidates the generic shrinker cannot reach (None, strings, dict fields)."""
+    import copy
+
+    def alt(path, value):
+        c = copy.deepcopy(scn)
+        cur = c
+        for k in path[:-1]:
+            cur = cur[k]
+        if cur.get(path[-1], value) == value and path[-1] in cur:
+            return None
+        cur[path[-1]] = value
+        return c
+    cands = [alt(("knobs", "window"), None), alt(("knobs", "compress"), False),
+             alt(("reader",), {"auto": False, "steps": []}), alt(("tapes",), {}),
+             alt(("req", "inm"), None), alt(("req", "ae"), False), alt(("req", "conn"), None),
+             alt(("req", "method"), "GET"), alt(("req", "version"), "1.1"),
+             alt(("req", "body"), "hex:"), alt(("second",), "none"), alt(("cuts",), []),
+             alt(("gaps",), [])]
+    for i, o in enumerate(scn.get("prog", [])):
+        if o.get("op") == "status" and o.get("reason") is not None:
+            c = copy.deepcopy(scn)
+            c["prog"][i]["reason"] = None
+            cands.append(c)
+        if o.get("op") in ("write", "finish") and o.get("kind") in ("s", "d"):
+            c = copy.deepcopy(scn)
+            c["prog"][i]["kind"] = "b"
+            cands.append(c)
+    for c in cands:
+        if c is not None:
+            yield c
 
 
 def _req_headers(method, version, conn, ae, inm_value, body):
